@@ -139,7 +139,8 @@ def check_group(rep, g, tier, seed):
                     continue
                 y, x = atom.args
                 z = smt.Z3Ctx(c.alg, 8000)
-                cs = z.base_constraints(c.extra_facts_z3(z)) + z.decisions(c.path) + [z.expr(x) < 0]
+                dec = z.decisions(c.path)
+                cs = z.base_constraints(c.extra_facts_z3(z)) + dec + [z.expr(x) < 0]
                 r, model, dt = z.check(cs)
                 oname = "%s/angle_at_most_pi/%s" % (c.label, name)
                 if r == "unsat":
